@@ -94,8 +94,14 @@ def run_one(ch, cfg):
         c["ui_version"] = draw_version(ch, "uiver")
         c["signer_version"] = draw_version(ch, "sgver")
     plat = c["platform"]
+    two_versions = False
     if plat == "sgx":
-        c["ui_version"] = c["signer_version"]      # one application reports one version
+        # one application reports one version - except in a quarter of the runs, where the version
+        # seen while the enclave is locked differs from the one seen after the unlock (the manager
+        # must judge the version it reads *after* unlocking, whatever it read before)
+        two_versions = ch.draw(4, "sgx.two-versions") == 1
+        if not two_versions:
+            c["ui_version"] = c["signer_version"]
         if c["mode"] == "ui-heartbeat":
             c["mode"] = "bootloader"
     devpin = b"devpin7x"
@@ -110,6 +116,7 @@ def run_one(ch, cfg):
     if c["retries_error"]:
         dcfg["retries_error"] = 0x6E00
     if plat == "sgx":
+        dcfg["two_versions"] = two_versions
         dcfg["locked"] = c["mode"] == "bootloader"
         if c["mode"] in ("unknown", "other"):
             dcfg["locked"] = ch.draw(2, "sgx.locked") == 0
